@@ -230,26 +230,41 @@ def r4_validation(ctx) -> None:
     r, prog = ctx.r, ctx.prog
     r.rule("C18.R4", "invalid CIDR text is rejected with a Sigma error: ip_network() is called inside a try whose ValueError handler raises a SigmaError")
     f = prog.func("sigma.types.SigmaCIDRExpression.__post_init__")
-    calls = [c for c in walk_no_nested(f.node) if isinstance(c, ast.Call) and call_name(c).endswith("ip_network")]
-    if not calls:
-        raise AnalysisError(f"{f.qual}: ip_network call not found")
-    from ..raises import caught_locally, exc_class_of, is_sigma_error
-    h = caught_locally(prog, f, calls[0], "ValueError")
-    loc = f"{f.module.relpath}:{calls[0].lineno}"
-    rs = [x for x in ast.walk(h) if isinstance(x, ast.Raise)] if h is not None else []
-    if h is not None and rs and is_sigma_error(prog, exc_class_of(prog, f, rs[0].exc) or ""):
-        r.ok("C18.R4", f.qual, f"ip_network(self.cidr): ValueError → {unparse(rs[0].exc).split('(')[0]}", loc)
+    # __post_init__ interpreted (sa.tabulate, Proxy; ipaddress of the standard library is the only library) on valid and invalid texts
+    import ipaddress as _ip
+    from ..tabulate import Proxy, call_method, Raised
+    CE_ = "sigma.types.SigmaCIDRExpression"
+
+    class SigmaTypeError(Exception):
+        def __init__(self, *a, **k): super().__init__(*a)
+    env4 = {"SigmaTypeError": SigmaTypeError}
+    IK4 = {"max_steps": 4000, "behaviours": (SigmaTypeError, ValueError, TypeError)}
+
+    def outcome(text):
+        me = Proxy(prog, CE_, env4, {"cidr": text, "source": None}, interp_kwargs=IK4)
+        try:
+            call_method(prog, CE_, "__post_init__", me, env4, interp_kwargs=IK4)
+        except Raised as ex:
+            return "sigma error" if "SigmaTypeError" in str(ex) else f"raises {ex}"
+        return me.attrs().get("network")
+    bad_valid = [f"{t!r} → {outcome(t)!r}" for t in ("10.0.0.0/8", "192.168.0.0/255.255.0.0", "1.2.3.4/32", "1.2.3.4", "::1/128", "2001:db8::/32", "::/0",
+                                                               "2001:0db8::/32", "2001:DB8::/32", "2001:db8:0:0:0:0:0:0/32", "FE80::/10", "0:0:0:0:0:0:0:1/128", "::ffff:10.0.0.0/104") if outcome(t) != _ip.ip_network(t)]
+    bad_invalid = [f"{t!r} → {outcome(t)!r}" for t in ("nonsense", "10.0.0.0/33", "300.1.1.1/8", "1.2.3/8", "", "2001:db8::/129", "10.0.0.0/8/8", "*") if outcome(t) != "sigma error"]
+    bad_hostbits = [f"{t!r} → {outcome(t)!r}" for t in ("10.0.0.1/8", "192.168.1.1/24", "2001:db8::1/32") if outcome(t) != "sigma error"]
+    bad_zone = [f"{t!r} → {outcome(t)!r}" for t in ("fe80::1%eth0/128", "fe80::%1/64", "fe80::1%eth0") if outcome(t) != "sigma error"]
+    if not bad_valid and not bad_invalid:
+        r.ok("C18.R4", f.qual, "valid networks are parsed (network = ip_network(text)); invalid text is a SigmaTypeError, never a ValueError (interpreted on 21 texts, IPv6 in non-canonical spellings included)", f.loc)
     else:
-        r.violation("C18.R4", f.qual, short(calls[0]), "an invalid CIDR string raises ValueError (or nothing) instead of a Sigma error", loc)
-    if [unparse(a) for a in calls[0].args] == ["self.cidr"] and not calls[0].keywords:
-        r.ok("C18.R4", f.qual, "strict parsing (host bits set are rejected)", loc)
+        r.violation("C18.R4", f.qual, "ip_network(self.cidr)", f"an invalid CIDR string raises ValueError (or nothing) instead of a Sigma error, or a valid one is not parsed: {(bad_invalid + bad_valid)[0]}", f.loc)
+    if not bad_hostbits:
+        r.ok("C18.R4", f.qual, "strict parsing (host bits set are rejected)", f.loc)
     else:
-        r.violation("C18.R4", f.qual, short(calls[0]), "ip_network must parse self.cidr strictly", loc)
-    pi_ = prog.func("sigma.types.SigmaCIDRExpression.__post_init__")
-    if any(isinstance(n, ast.If) and "'%' in self.cidr" in unparse(n.test).replace('"', "'") and isinstance(n.body[0], ast.Raise) and "Sigma" in unparse(n.body[0]) for n in walk_no_nested(pi_.node)):
+        r.violation("C18.R4", f.qual, "ip_network(self.cidr)", f"ip_network must parse self.cidr strictly: {bad_hostbits[0]}", f.loc)
+    pi_ = f
+    if not bad_zone:
         r.ok("C18.R4", pi_.qual, "scoped IPv6 addresses (zone identifier) are rejected: the text forms that expand() compares have equal structure", pi_.loc)
     else:
-        r.violation("C18.R4", pi_.qual, "if '%' in self.cidr: raise", "ip_network() accepts a zone identifier (fe80::1%eth0/128); the first address keeps it and the broadcast address does not, so the common-prefix scan of expand() runs past the shorter text: IndexError during conversion", pi_.loc)
+        r.violation("C18.R4", pi_.qual, "if '%' in self.cidr: raise", f"ip_network() accepts a zone identifier (fe80::1%eth0/128); the first address keeps it and the broadcast address does not, so the common-prefix scan of expand() runs past the shorter text: IndexError during conversion — {bad_zone[0]}", pi_.loc)
     r.floor("C18.R4", 2)
 
 
